@@ -246,6 +246,7 @@ MUTANTS += [
     M("checkpoint shares the ratio lists", _B, "history_copy = copy.deepcopy(self.history)", "history_copy = copy.copy(self.history)", "C08.ckpt"),
 ]
 NEUTRALS = [
+    __import__("aspire_sa.rules.smcloop", fromlist=["HELPER_NEUTRAL"]).HELPER_NEUTRAL,
     M("incremental weight with the difference named", _S, "return (self.beta - beta) * self.log_q + (beta - self.beta) * (\n            self.log_likelihood + self.log_prior\n        )", "db = beta - self.beta\n        return db * (self.log_likelihood + self.log_prior) - db * self.log_q"),
     M("history through a local alias", _B, "self.history.log_norm_ratio.append(log_evidence_ratio)", "hist = self.history\n                hist.log_norm_ratio.append(log_evidence_ratio)"),
     M("ratio via temporary names", _B, "log_evidence_ratio = samples.log_evidence_ratio(beta)", "lz = samples.log_evidence_ratio(beta)\n                log_evidence_ratio = lz"),
